@@ -12,6 +12,7 @@ PEP 3333 / ASGI drivers.  Independent monitors (vlib/models/media_c12.py):
                   undecodable must surface as a 4xx MediaMalformedError (400 on the wire), never 5xx
 """
 
+import asyncio
 import functools
 import itertools
 import json
@@ -133,6 +134,7 @@ def mutate_into(obj, doc):
 #   0 assign once                         1 assign decoy, render, assign the document (different object)
 #   2 assign, send render_body() as data  3 assign obj, render, mutate obj in place, assign the SAME obj again
 #   4 like 3, but the render + mutation + re-assignment happen in process_response middleware
+#   5 process_response middleware takes the rendering over: data = render_body(); media = None (signing/compression)
 # oracle in every case: the wire body deserializes to the document as it was at the last assignment
 
 class DocW:
@@ -188,6 +190,11 @@ class RenderThenAmendW:
             mutate_into(obj, CUR['doc'])
             resp.media = obj
             CUR['mw_ran'] = True
+        elif CUR.get('pre') == 5 and isinstance(resource, DocW):
+            rendered = resp.render_body()
+            resp.media = None
+            resp.data = rendered
+            CUR['mw_ran'] = True
 
 
 class RenderThenAmendA:
@@ -197,6 +204,11 @@ class RenderThenAmendA:
             obj = resp.media
             mutate_into(obj, CUR['doc'])
             resp.media = obj
+            CUR['mw_ran'] = True
+        elif CUR.get('pre') == 5 and isinstance(resource, DocA):
+            rendered = await resp.render_body()
+            resp.media = None
+            resp.data = rendered
             CUR['mw_ran'] = True
 
 
@@ -227,11 +239,48 @@ class EchoW:
         resp.text = 'ok'
 
 
+async def _interrupted_access(req, code, log):
+    """One get_media() access that is interrupted while it waits for a body event the client has not sent yet:
+    X = the task is cancelled, T = asyncio.wait_for() deadline (virtual time). Logged as kind 'int'; if the access
+    completes because the planned stall was never reached it is logged as an ordinary get."""
+    t0 = _touch()
+    try:
+        if code == 'X':
+            task = asyncio.ensure_future(req.get_media())
+            while not task.done() and not CUR.get('stalled'):
+                await asyncio.sleep(0)
+            if not task.done():
+                task.cancel()
+                try:
+                    await task
+                except asyncio.CancelledError:
+                    log.append(('interrupted', None, 'int', 'cancelled', _touch() - t0))
+                    return
+            v = task.result()
+        else:
+            try:
+                v = await asyncio.wait_for(req.get_media(), timeout=30)
+            except asyncio.TimeoutError:
+                if CUR.get('timeouts_pending'):
+                    CUR['timeouts_pending'] -= 1
+                    log.append(('interrupted', None, 'int', 'deadline', _touch() - t0))
+                    return
+                raise
+    except Exception as ex:  # noqa
+        log.append(('get', None, 'exc', ex, _touch() - t0))
+    else:
+        log.append(('get', None, 'ret', v, _touch() - t0))
+    CUR.setdefault('hdelta', []).append(0)
+
+
 class EchoA:
     async def on_post(self, req, resp):
         log = CUR['log']
         last = None
         for code in CUR['history']:
+            if code in 'XT':
+                await _interrupted_access(req, code, log)
+                continue
             op, default = OPS[code]
             t0 = _touch()
             h0 = CUR.get('hcalls', 0)
@@ -363,16 +412,87 @@ class SubFormHandler(URLEncodedFormHandler):
     """Plain subclass of the form handler."""
 
 
-CLASSES = {'stock': (JSONHandler, URLEncodedFormHandler), 'sub': (SubJSONHandler, SubFormHandler)}
-CFG = [None]        # active handler configuration: None (framework defaults) or (dumps, loads, class) names
+class EnvelopeJSONHandler(JSONHandler):
+    """A subclass that overrides the public deserialization methods: documents travel as {"data": doc}.
+    (The envelope is added through the documented dumps= knob and removed by the overridden methods, so the
+    round trip only closes when the overrides are really used on both stacks.)"""
+
+    def __init__(self, dumps=None, loads=None):
+        base = dumps or functools.partial(json.dumps, ensure_ascii=False)
+        super().__init__(dumps=lambda obj: base({'data': obj}), loads=loads)
+
+    def deserialize(self, stream, content_type, content_length):
+        return super().deserialize(stream, content_type, content_length)['data']
+
+    async def deserialize_async(self, stream, content_type, content_length):
+        return (await super().deserialize_async(stream, content_type, content_length))['data']
+
+
+class MultiDictFormHandler(URLEncodedFormHandler):
+    """A subclass that overrides the public deserialization methods: every field is a list (multi-dict)."""
+
+    @staticmethod
+    def _lists(mapping):
+        return {k: (v if isinstance(v, list) else [v]) for k, v in mapping.items()}
+
+    def deserialize(self, stream, content_type, content_length):
+        return self._lists(super().deserialize(stream, content_type, content_length))
+
+    async def deserialize_async(self, stream, content_type, content_length):
+        return self._lists(await super().deserialize_async(stream, content_type, content_length))
+
+
+class SubRequestW(falcon.Request):
+    def c12_helper(self):
+        return self.method
+
+
+class SubResponseW(falcon.Response):
+    def c12_helper(self):
+        return self.status
+
+
+class SubRequestA(falcon.asgi.Request):
+    def c12_helper(self):
+        return self.method
+
+
+class SubResponseA(falcon.asgi.Response):
+    def c12_helper(self):
+        return self.status
+
+
+CLASSES = {'stock': (JSONHandler, URLEncodedFormHandler), 'sub': (SubJSONHandler, SubFormHandler),
+           'override': (EnvelopeJSONHandler, MultiDictFormHandler)}
+TYPES = ('stock', 'sub')       # request_type / response_type of the app: framework classes or plain subclasses
+CFG = [None]        # active configuration: None (framework defaults) or (dumps, loads, handler class, types) names
 
 
 def all_cfgs():
-    return [(d, l, c) for c in CLASSES for d in DUMPS for l in LOADS]
+    """Configurations under which the plain document contract holds unchanged."""
+    return [(d, l, c, t) for t in TYPES for c in ('stock', 'sub') for d in DUMPS for l in LOADS]
+
+
+def override_cfgs():
+    """Handlers whose overridden public methods change the wire format / the shape of the parsed form."""
+    return [(d, 'default', 'override', t) for t in TYPES for d in ('default', 'bytes')]
 
 
 def set_cfg(cfg):
-    CFG[0] = tuple(cfg) if cfg else None
+    if cfg:
+        cfg = tuple(cfg)
+        if len(cfg) == 3:
+            cfg += ('stock',)
+    CFG[0] = cfg or None
+
+
+def wire_doc(kind, doc):
+    """What the reference reader must find in the serialized body under the active configuration."""
+    if CFG[0] and CFG[0][2] == 'override':
+        if kind == 'json':
+            return {'data': doc}
+        return {k: (v[0] if isinstance(v, list) and len(v) == 1 else v) for k, v in doc.items()}
+    return doc
 
 
 def apps():
@@ -380,8 +500,13 @@ def apps():
     key = CFG[0]
     if key not in _APPS:
         _instrument()
-        w = falcon.App(middleware=[RenderThenAmendW()])
-        a = falcon.asgi.App(middleware=[RenderThenAmendA()])
+        if key is not None and key[3] == 'sub':
+            w = falcon.App(middleware=[RenderThenAmendW()], request_type=SubRequestW, response_type=SubResponseW)
+            a = falcon.asgi.App(middleware=[RenderThenAmendA()], request_type=SubRequestA,
+                                response_type=SubResponseA)
+        else:
+            w = falcon.App(middleware=[RenderThenAmendW()])
+            a = falcon.asgi.App(middleware=[RenderThenAmendA()])
         for app in (w, a):
             for opts in (app.req_options, app.resp_options):
                 if key is None:
@@ -406,7 +531,20 @@ def apps():
                 if CUR.get('rcv_fail_at') == k:
                     CUR['rcv_failures'] = CUR.get('rcv_failures', 0) + 1
                     raise OSError('simulated: connection reset by peer while receiving the request body')
-                return await receive()
+                stalls = CUR.get('stalls')
+                if stalls and stalls[0] == CUR.get('delivered', 0):
+                    # the client has not sent the next event yet: wait (until the awaiting access is interrupted)
+                    stalls.pop(0)
+                    CUR['stalled'] = True
+                    CUR['n_stalled'] = CUR.get('n_stalled', 0) + 1
+                    CUR['timeouts_pending'] = CUR.get('timeouts_pending', 0) + 1
+                    try:
+                        await asyncio.get_running_loop().create_future()
+                    finally:
+                        CUR['stalled'] = False
+                ev = await receive()
+                CUR['delivered'] = CUR.get('delivered', 0) + 1
+                return ev
             await a(scope, rcv, send)
         _APPS[key] = {'w': w, 'a': counted}
     return _APPS[key]
@@ -429,7 +567,7 @@ def serialize(stack, doc, ct, pre=0):
         if res.outcome != 'done':
             problems.append('asgi outcome %s %r' % (res.outcome, res.exc))
     DIAG['protocol'] += len(res.problems)      # PEP 3333 / ASGI monitor findings belong to C05: diagnostics here
-    if pre == 4 and not CUR.get('mw_ran'):
+    if pre in (4, 5) and not CUR.get('mw_ran'):
         problems.append('harness: process_response middleware did not run')
     body = res.body
     cl = res.header('content-length')
@@ -469,6 +607,8 @@ def deserialize(stack, ct, body, history, propagate, chunks=None, with_cl=True, 
     fault = fault or {}
     if 'hplan' in fault:
         CUR['hplan'] = fault['hplan']
+    if 'stalls' in fault:
+        CUR['stalls'] = list(fault['stalls'])
     flaky = None
     if 'io_fail_at' in fault:
         if stack == 'w':
@@ -648,13 +788,25 @@ CODES = 'GMDN'
 
 
 def run_request(rec, stack, kind, ct, ct_class, body, history, propagate, chunks=None, with_cl=True,
-                style=0, trailing=b'', tag='req'):
+                style=0, trailing=b'', tag='req', fault=None):
     wit = {'mode': 'request', 'cfg': CFG[0], 'stack': stack, 'kind': kind, 'ct': ct, 'ct_class': ct_class,
            'body_hex': body.hex() if len(body) <= 4096 else None,
            'body_gen': None if len(body) <= 4096 else CUR_GEN.get('desc'),
            'history': ''.join(history), 'propagate': propagate, 'chunks': chunks, 'with_cl': with_cl,
-           'style': style, 'trailing_hex': trailing.hex(), 'tag': tag}
-    log, status, problems = deserialize(stack, ct, body, history, propagate, chunks, with_cl, style, trailing)
+           'style': style, 'trailing_hex': trailing.hex(), 'tag': tag, 'fault': fault}
+    log, status, problems = deserialize(stack, ct, body, history, propagate, chunks, with_cl, style, trailing, fault)
+    if fault and 'stalls' in fault:
+        # interrupted accesses are not parse attempts: the contract applies to the accesses that follow them
+        planned = sum(1 for c in history if c in 'XT')
+        done = sum(1 for e in log if e[2] == 'int')
+        rec.count('mon.interrupted_access', done)
+        if done != planned or CUR.get('n_stalled', 0) != planned:
+            rec.count('harness.stall_not_reached')
+            return True, log
+        wit['interruptions'] = [e[3] for e in log if e[2] == 'int']
+        log = [e for e in log if e[2] != 'int']
+        history = [c for c in history if c not in 'XT']
+        rec.count('mon.retry_after_interruption')
     ok = judge(rec, wit, kind, ct_class, body, history, propagate, log, status, problems)
     rec.count('req.' + stack)
     if stack == 'a':
@@ -986,13 +1138,14 @@ def roundtrip(rec, kind, doc, ct, rng, stacks_ser='wa', stacks_de='wa', tag='rt'
     doc_hex = dump(doc).hex()
     bodies = {}
     if pre is None:
-        pre = 0 if rng is None else rng.choice([0, 0, 0, 1, 1, 2, 3, 3, 4, 4])
+        pre = 0 if rng is None else rng.choice([0, 0, 0, 1, 1, 2, 3, 3, 4, 4, 5, 5])
     pre = int(pre)
     if pre in (3, 4) and not isinstance(doc, (dict, list)):
         pre -= 2                                   # only containers can be mutated in place
     if pre:
         rec.count({1: 'mon.reassigned_after_render', 2: 'mon.render_body_sent',
-                   3: 'mon.same_object_reassigned.responder', 4: 'mon.same_object_reassigned.middleware'}[pre])
+                   3: 'mon.same_object_reassigned.responder', 4: 'mon.same_object_reassigned.middleware',
+                   5: 'mon.render_taken_over'}[pre])
         if pre in (3, 4):
             rec.count('mon.same_object.' + ('dict' if isinstance(doc, dict) else 'list'))
     for s in stacks_ser:
@@ -1011,10 +1164,10 @@ def roundtrip(rec, kind, doc, ct, rng, stacks_ser='wa', stacks_de='wa', tag='rt'
         # self-check of the trusted base: the reference reader must read falcon's body as the document
         if kind == 'json':
             r = M.ref_json_parse(body)
-            ok = r[0] == 'ok' and M.same_doc(doc, r[1])
+            ok = r[0] == 'ok' and M.same_doc(wire_doc(kind, doc), r[1])
         else:
             r = M.ref_form_parse(body)
-            ok = r[0] == 'ok' and M.same_form(doc, r[1])
+            ok = r[0] == 'ok' and M.same_form(wire_doc(kind, doc), r[1])
         rec.count('mon.ref_reads_body')
         if not ok:
             rec.count('model.disagrees_with_body')
@@ -1063,14 +1216,14 @@ def phase_corpus(rec):
             idx += 1
             if idx % rec.nshards != rec.shard:
                 continue
-            roundtrip(rec, 'json', doc, ct, None, tag='corpus', pre=idx % 5)
+            roundtrip(rec, 'json', doc, ct, None, tag='corpus', pre=idx % 6)
             rec.count('phase.corpus')
     for f in corpus_forms():
         for ct in FORM_CTS:
             idx += 1
             if idx % rec.nshards != rec.shard:
                 continue
-            roundtrip(rec, 'form', f, ct, None, tag='corpus', pre=idx % 5)
+            roundtrip(rec, 'form', f, ct, None, tag='corpus', pre=idx % 6)
             rec.count('phase.corpus')
 
 
@@ -1206,11 +1359,12 @@ def phase_handler_config(rec):
                     idx += 1
                     if idx % rec.nshards != rec.shard:
                         continue
-                    roundtrip(rec, 'json', doc, ct, None, tag='config', pre=idx % 5)
+                    roundtrip(rec, 'json', doc, ct, None, tag='config', pre=idx % 6)
                     rec.count('phase.config')
                     rec.count('config.dumps.' + cfg[0])
                     rec.count('config.loads.' + cfg[1])
                     rec.count('config.class.' + cfg[2])
+                    rec.count('config.types.' + cfg[3])
             for body, hist in req_classes:
                 for stack in 'wa':
                     for ct in (JSON, VND):
@@ -1229,9 +1383,67 @@ def phase_handler_config(rec):
                     idx += 1
                     if idx % rec.nshards != rec.shard:
                         continue
-                    roundtrip(rec, 'form', f, FORM, None, tag='config', pre=idx % 5)
+                    roundtrip(rec, 'form', f, FORM, None, tag='config', pre=idx % 6)
                     rec.count('config.form.' + cfg[2])
             rec.seen('handler_configs', cfg)
+        # handlers whose overridden public deserialize()/deserialize_async() matter for the result
+        for cfg in override_cfgs():
+            set_cfg(cfg)
+            for doc in CONFIG_DOCS:
+                for ct in (None, VND):
+                    if isinstance(doc, str) and len(doc) > 10000 and ct is not None:
+                        continue
+                    idx += 1
+                    if idx % rec.nshards != rec.shard:
+                        continue
+                    roundtrip(rec, 'json', doc, ct, None, tag='config-override', pre=idx % 6)
+                    rec.count('config.override.json')
+                    rec.count('config.types.' + cfg[3])
+            if cfg[0] == 'default':
+                for f in corpus_forms():
+                    idx += 1
+                    if idx % rec.nshards != rec.shard:
+                        continue
+                    multi = {k: (v if isinstance(v, list) else [v]) for k, v in f.items()}
+                    roundtrip(rec, 'form', multi, FORM, None, tag='config-override', pre=idx % 6)
+                    rec.count('config.override.form')
+            rec.seen('handler_configs', cfg)
+    finally:
+        set_cfg(None)
+
+
+def phase_interrupted(rec, quick):
+    """ASGI: the first access(es) to the media are interrupted (task cancelled / wait_for deadline) while waiting
+    for the d-th body event, for every d and every pair d1 < d2, then the media is accessed normally.
+    Oracle: unchanged - the accesses that follow obey the contract for the complete body (equal document /
+    malformed / not found), for every chunking."""
+    bodies = [('json', JSON, b'{"k": [1, "\xc3\xa9"]}'), ('json', None, b'{"k": [1, "\xc3\xa9"'),
+              ('json', VND, b'[1, [2, [3]]]'), ('form', FORM, b'a=%C3%A9&a=1+2')]
+    idx = 0
+    try:
+        for cfg in (None, ('default', 'default', 'sub', 'sub'), ('bytes', 'str-only', 'stock', 'sub')):
+            set_cfg(cfg)
+            for kind, ct, body in bodies:
+                n = len(body)
+                for chunks in ([1] * n, [3] * -(-n // 3), [2, 5] + [1] * (n - 7), [n - 2, 1, 1]):
+                    nev = len(chunks)
+                    plans = [(d,) for d in range(1, nev)]
+                    plans += [(d1, d2) for d1 in range(1, nev) for d2 in range(d1 + 1, nev)] if nev <= 8 or not quick \
+                        else [(d, d + 1) for d in range(1, nev - 1)] + [(1, nev - 1), (2, nev - 1)]
+                    for plan in plans:
+                        for how in 'XT':
+                            for hist in ('G', 'GM', 'DG', 'MN'):
+                                idx += 1
+                                if idx % rec.nshards != rec.shard:
+                                    continue
+                                run_request(rec, 'a', kind, ct, 'designated', body, [how] * len(plan) + list(hist),
+                                            idx % 3 == 0, chunks, with_cl=idx % 2 == 0, tag='interrupted',
+                                            fault={'stalls': list(plan)})
+                                rec.count('phase.interrupted')
+                                rec.count('interrupted.' + ('cancel' if how == 'X' else 'deadline'))
+                                rec.count('interrupted.%d_times' % len(plan))
+                                if plan[-1] >= 2:
+                                    rec.count('interrupted.after_consuming_wire_chunks')
     finally:
         set_cfg(None)
 
@@ -1268,10 +1480,14 @@ def phase_hostile(rec):
             rec.count('phase.hostile_form')
 
 
+MIN_RANDOM_ROUNDS = 150
+
+
 def phase_random(rec):
     rng = rec.rng
     n = 0
-    while rec.budget_ok(0.85):
+    # a count-sized minimum (so the floors do not depend on machine load), then as long as the budget allows
+    while rec.budget_ok(0.85) or n < MIN_RANDOM_ROUNDS:
         for _ in range(10):
             n += 1
             set_cfg(rng.choice(all_cfgs()) if rng.random() < 0.4 else None)
@@ -1369,6 +1585,7 @@ def run(rec):
     phase_reassign(rec)
     phase_faulty(rec, 3 if quick else 4)
     phase_handler_config(rec)
+    phase_interrupted(rec, quick)
     phase_histories(rec, 4 if quick else 5)
     phase_truncations(rec, quick)
     phase_chunkings(rec, quick)
@@ -1383,6 +1600,8 @@ def run(rec):
         if v:
             rec.count('diag.' + k, v)
             rec.note('diagnostic (not part of the verdict): %s seen %d times in shard %d' % (k, v, rec.shard))
+    if rec.counters.get('harness.stall_not_reached'):
+        rec.mark_inconclusive('planned interruption was not reached in %d requests' % rec.counters['harness.stall_not_reached'])
     if rec.counters.get('harness.fault_not_injected'):
         rec.mark_inconclusive('planned fault was not injected in %d requests' % rec.counters['harness.fault_not_injected'])
     if rec.counters.get('model.disagrees_with_body'):
@@ -1428,10 +1647,21 @@ def run(rec):
         rec.floor('config.dumps.' + name, 150)
     for name in LOADS:
         rec.floor('config.loads.' + name, 300)
-    for name in CLASSES:
+    for name in ('stock', 'sub'):
         rec.floor('config.class.' + name, 500)
         rec.floor('config.form.' + name, 10)
-    rec.floor('random.configured', 50)
+    rec.floor('random.configured', 30)
+    for name in TYPES:
+        rec.floor('config.types.' + name, 600)
+    rec.floor('config.override.json', 80)
+    rec.floor('config.override.form', 25)
+    rec.floor('mon.render_taken_over', 100)
+    rec.floor('phase.interrupted', 3000)
+    rec.floor('mon.retry_after_interruption', 3000)
+    rec.floor('interrupted.cancel', 1000)
+    rec.floor('interrupted.deadline', 1000)
+    rec.floor('interrupted.2_times', 500)
+    rec.floor('interrupted.after_consuming_wire_chunks', 1500)
     rec.floor('mon.faulty.io.w', 100)
     rec.floor('mon.faulty.io.a', 300)
     rec.floor('mon.faulty.handler.w', 1000)
@@ -1488,7 +1718,8 @@ def replay(rec, w):
         CUR_GEN['desc'] = wit['tag'].split(':', 1)[1]
     ok, log = run_request(rec, wit['stack'], wit['kind'], wit['ct'], wit['ct_class'], body, list(wit['history']),
                           wit['propagate'], wit['chunks'], wit['with_cl'], wit.get('style', 0),
-                          bytes.fromhex(wit.get('trailing_hex', '')), tag=wit.get('tag', 'replay'))
+                          bytes.fromhex(wit.get('trailing_hex', '')), tag=wit.get('tag', 'replay'),
+                          fault=wit.get('fault'))
     print('replayed:', 'no monitor fired' if ok else 'monitor fired', describe(log))
     rec.case(('replay', 1))
     rec.case(('replay', 2))
